@@ -788,6 +788,38 @@ pub fn generate(prop: &str, thorough: bool, rng: &mut Rng) -> Case {
             }
             clients.push(ops);
         }
+        "C03" if rng.chance(1, if thorough { 15 } else { 50 }) => {
+            // full-index variant: a two-page blob index filled completely (340 one-page entries in one blob of a 1.5 MiB
+            // block), so that damage to the count / the last index entries is at the very edge of the index buffer
+            let n = 340 + rng.below(3) as u64;
+            cfg.insert("keys".into(), n as i64);
+            cfg.insert("thorough".into(), thorough as i64);
+            cfg.insert("focus_index".into(), 1);
+            cfg.insert("policy".into(), 1);
+            cfg.insert("mem_cap".into(), 2);
+            cfg.insert("mem_shards".into(), 1);
+            cfg.insert("blocks".into(), 3);
+            cfg.insert("block_pages".into(), 384);
+            cfg.insert("blob_pages".into(), 2);
+            cfg.insert("flushers".into(), 1);
+            cfg.insert("reclaimers".into(), 1);
+            cfg.insert("clean_thr".into(), 1);
+            cfg.insert("comp".into(), 0);
+            cfg.insert("tomb".into(), 0);
+            cfg.insert("inmem_mod".into(), 0);
+            cfg.insert("ondisk_mod".into(), 0);
+            cfg.insert("buf_pages".into(), 400);
+            cfg.insert("max_steps".into(), 60_000_000);
+            let mut ops = vec![];
+            for k in 0..n {
+                ops.push(Op::Insert { k, ver: 0, w: 0, loc: 0, hold: false });
+                if k % 64 == 63 {
+                    ops.push(Op::Wait);
+                }
+            }
+            ops.push(Op::Wait);
+            clients.push(ops);
+        }
         "C03" => {
             let keys = 4 + rng.below(4) as u64;
             cfg.insert("keys".into(), keys as i64);
